@@ -37,7 +37,7 @@ package main
 //@   at call Status#1: assert $stored
 //@   at call Status#2: assert arg1 == 405
 //@   at call Status#2: assert r.Method != "POST"
-//@   modifies heap, $decoded, $stored, $valid
+//@   modifies heap, $decoded, $stored, $valid, $cfgOK, $weekOK
 
 // validate accepts a report only if the week is a date, the config version is
 // a semantic version, X is not 0 and every program build, counter and stack
